@@ -397,10 +397,13 @@ NextPackFail ==
   \/ \E sec \in 0..(MaxClock + 1), gc \in BOOLEAN : PackQ(sec, gc)
 \* oid-allocation heavy: stores and restores of arbitrary (also never issued) oids, aborts, reopen
 RestoreAny(c, o, d) == Restore(c, o, d, 0)
+\* a copied record of an object whose creation was undone (data None)
+RestoreGone(c, o) == Restore(c, o, Gone, 0)
 NextOid ==
   \/ \E c \in Client, m \in Metas, clk \in 1..MaxClock : Begin(c, m, clk)
   \/ \E c \in Client, o \in Oids, s \in SerialRange, d \in Datums : Store(c, o, s, d)
   \/ \E c \in Client, o \in Oids, d \in Datums : RestoreAny(c, o, d)
+  \/ \E c \in Client, o \in Oids : RestoreGone(c, o)
   \/ \E c \in Client : Vote(c)
   \/ \E c \in Client : Finish(c)
   \/ \E c \in Client : Abort(c)
